@@ -24,7 +24,7 @@ def run(chk):
     quick = chk.tier == "quick"
     chk.rule = ("a case is (storage configuration, operation, kill point): configurations = temp-file strategy x metadata store x versioning (4 in the quick tier, 7 in "
                 "the thorough one); operations = PutObject on a new key / over an existing object, CopyObject over an existing object, multipart completion on a new "
-                "key / over an existing object, UploadPart (incl. re-upload), DeleteObject; kill points = every verifhook site on the operation's path (the gateway "
+                "key / over an existing object, UploadPart (incl. re-upload), DeleteObject (in versioned buckets also of the current version by its id, which promotes the version before it); kill points = every verifhook site on the operation's path (the gateway "
                 "SIGKILLs itself there). After the restart: the key reads as the complete previous or the complete new state (body, length, ETag, content-type, user "
                 "metadata, tag all of one write); listings show no stray keys, uploads or duplicate versions; the current version can be deleted by id; a new write, a delete and finally DeleteBucket succeed. "
                 "Non-trivial: the kill point was reached (the request got no answer); distinct by the tuple.")
@@ -71,6 +71,12 @@ def run(chk):
                         petag = rp.headers.get("etag", "")
                 if opname == "copy":
                     R.req("PUT", "/%s/src" % bk, body=body_of(new), headers=write_headers(new))
+                mid_vid = None
+                if opname == "delete-version":
+                    # the key has two versions; the current one ("new") is deleted by its id, which makes the older one ("old") current again
+                    r1_ = R.req("PUT", path, body=body_of(new), headers=write_headers(new))
+                    chk.require(r1_.status == 200, "c11:setup", "second PUT failed")
+                    mid_vid = r1_.headers.get("x-amz-version-id")
                 # fresh process (fresh passage counters), armed
                 g.restart(); hk.clear(); hk.crash_at(site_, 1); R = client()
                 if opname.startswith("put"): r = R.req("PUT", path, body=body_of(new), headers=write_headers(new))
@@ -78,6 +84,7 @@ def run(chk):
                 elif opname.startswith("multipart"):
                     r = R.req("POST", path, query={"uploadId": uid}, body=("<CompleteMultipartUpload><Part><PartNumber>1</PartNumber><ETag>%s</ETag></Part></CompleteMultipartUpload>" % petag).encode())
                 elif opname.startswith("uploadpart"): r = R.req("PUT", path, query={"partNumber": "1", "uploadId": uid}, body=body_of(new))
+                elif opname == "delete-version": r = R.req("DELETE", path, query={"versionId": mid_vid})
                 else: r = R.req("DELETE", path)
                 if r.status == -1:
                     try: g.proc.wait(timeout=3)          # the kill is in flight when the connection drops
@@ -190,7 +197,7 @@ def run(chk):
             wid = 0
             for opname, sites in (("put-new", PUT_SITES), ("put-overwrite", PUT_SITES), ("copy", PUT_SITES), ("multipart-new", CMU_SITES), ("multipart-overwrite", CMU_SITES),
                                   ("uploadpart-new", PART_SITES), ("uploadpart-again", PART_SITES), ("delete", DEL_SITES)) + (
-                                  (("put-overwrite-prever", PUT_SITES), ("multipart-overwrite-prever", CMU_SITES), ("delete-prever", DEL_SITES)) if versioned else ()):
+                                  (("put-overwrite-prever", PUT_SITES), ("multipart-overwrite-prever", CMU_SITES), ("delete-prever", DEL_SITES), ("delete-version", PART_SITES)) if versioned else ()):
                 for s_ in sites:
                     wid += 1
                     row = scenario(opname, s_, wid)
